@@ -1,6 +1,8 @@
 /-
-C09 — structural well-formedness of field trees (unique names per collection, no empty collection
-*inside* a collection) and the fact that shape-preserving operations keep it.
+C09 — structural well-formedness of field trees (unique names in every collection) and the fact that
+shape-preserving operations keep it.  (Before the `fix:` of `Collection.__len__` the invariant also had
+to exclude a collection without fields nested in a collection — its parent could not tell its number of
+rows; now the collection field's remembered `num_obs` is used and no such exclusion is needed.)
 -/
 import Midgard.Proofs.DatasetExtend
 
@@ -10,16 +12,15 @@ def Field.nonEmpty : Field → Prop
   | .leaf .. => True
   | .coll _ _ _ fs => fs ≠ []
 
-/-- names are unique in every collection (they are dict keys) and no collection nested in a
-collection is empty (`Collection.__len__` could not tell its number of rows) -/
+/-- names are unique in every collection (they are dict keys) -/
 def WFF : Field → Prop
   | .leaf .. => True
   | .coll _ _ _ fs => (names fs).Nodup ∧ WFFs fs
 where WFFs : List Field → Prop
   | [] => True
-  | c :: cs => (WFF c ∧ c.nonEmpty) ∧ WFFs cs
+  | c :: cs => WFF c ∧ WFFs cs
 
-theorem WFFs_iff : ∀ (fs : List Field), WFF.WFFs fs ↔ ∀ c ∈ fs, WFF c ∧ c.nonEmpty
+theorem WFFs_iff : ∀ (fs : List Field), WFF.WFFs fs ↔ ∀ c ∈ fs, WFF c
   | [] => by simp [WFF.WFFs]
   | c :: cs => by simp [WFF.WFFs, WFFs_iff cs]
 
@@ -28,70 +29,39 @@ theorem rectFields_iff {h : Heap} {n : Nat} : ∀ (fs : List Field),
   | [] => by simp [RectField.RectFields]
   | c :: cs => by simp [RectField.RectFields, rectFields_iff cs]
 
+/-! the number of rows `Collection.__len__` reads off a rectangular field is `n` -/
 mutual
-theorem WFF.lenDef : ∀ (f : Field), WFF f → f.nonEmpty → f.lenDef = true
-  | .leaf .., _, _ => by simp [Field.lenDef]
-  | .coll _ _ _ fs, hw, hn => by
-    simp only [Field.lenDef]
-    simp only [WFF] at hw
-    exact WFFs.headDef fs hw.2 hn
-theorem WFFs.headDef : ∀ (fs : List Field), WFF.WFFs fs → fs ≠ [] → Field.lenDef.headDef fs = true
-  | [], _, hn => absurd rfl hn
-  | c :: cs, hw, _ => by
-    simp only [WFF.WFFs] at hw
-    simp only [Field.lenDef.headDef]
-    exact WFF.lenDef c hw.1.1 hw.1.2
-end
-
-mutual
-theorem WFF.shapeOK : ∀ (f : Field), WFF f → ShapeOK f
-  | .leaf .., _ => by simp [ShapeOK]
-  | .coll _ _ _ fs, hw => by
-    simp only [WFF] at hw
-    simp only [ShapeOK]
-    refine ⟨?_, WFFs.shapeOKs fs hw.2⟩
-    by_cases he : fs = []
-    · exact Or.inl he
-    · exact Or.inr (WFFs.headDef fs hw.2 he)
-theorem WFFs.shapeOKs : ∀ (fs : List Field), WFF.WFFs fs → ShapeOK.ShapeOKs fs
-  | [], _ => by simp [ShapeOK.ShapeOKs]
-  | c :: cs, hw => by
-    simp only [WFF.WFFs] at hw
-    simp only [ShapeOK.ShapeOKs]
-    exact ⟨WFF.shapeOK c hw.1.1, WFFs.shapeOKs cs hw.2⟩
-end
-
-/-! the length of a rectangular field whose length is defined -/
-mutual
-theorem RectField.len {h : Heap} {n : Nat} : ∀ (f : Field), RectField h n f → f.lenDef = true → Field.len h f = n
-  | .leaf _ _ o _ _ _, hr, _ => by
+theorem RectField.len {h : Heap} {n : Nat} : ∀ (f : Field), RectField h n f → Field.len h f = n
+  | .leaf _ _ o _ _ _, hr => by
     simp only [RectField] at hr
     simp only [Field.len]
     exact hr.1.objLen
-  | .coll _ _ _ fs, hr, hd => by
+  | .coll _ _ _ fs, hr => by
     simp only [RectField] at hr
     simp only [Field.len]
-    exact RectFields.len fs hr.1 (by simpa [Field.lenDef] using hd)
+    split
+    · exact hr.2
+    · rename_i hne
+      exact RectFields.len fs hr.1 (by intro he; simp [he] at hne)
 theorem RectFields.len {h : Heap} {n : Nat} : ∀ (fs : List Field), RectField.RectFields h n fs →
-    Field.lenDef.headDef fs = true → Field.len.lenL h fs = n
-  | [], _, hd => by simp [Field.lenDef.headDef] at hd
-  | c :: cs, hr, hd => by
+    fs ≠ [] → Field.len.lenL h fs = n
+  | [], _, hd => absurd rfl hd
+  | c :: cs, hr, _ => by
     simp only [RectField.RectFields] at hr
     simp only [Field.len.lenL]
-    exact RectField.len c hr.1 (by simpa [Field.lenDef.headDef] using hd)
+    exact RectField.len c hr.1
 end
 
-/-- `CollectionField._num_rows()` of a rectangular, well-formed collection field is `n` -/
+/-- `CollectionField._num_rows()` of a rectangular collection field is `n` -/
 theorem collRows_eq {h : Heap} {n : Nat} {nm : String} {no l : Nat} {fs : List Field}
-    (hr : RectField h n (.coll nm no l fs)) (hw : WFF (.coll nm no l fs)) : collRows h no fs = n := by
+    (hr : RectField h n (.coll nm no l fs)) : collRows h no fs = n := by
   simp only [RectField] at hr
-  simp only [WFF] at hw
   simp only [collRows]
   by_cases he : fs = []
   · simp [he, hr.2]
   · have : fs.isEmpty = false := by cases fs <;> simp_all
     simp only [this, Bool.false_eq_true, if_false, collLen]
-    exact RectFields.len fs hr.1 (WFFs.headDef fs hw.2 he)
+    exact RectFields.len fs hr.1 he
 
 /-! ### same shape -/
 
@@ -151,7 +121,7 @@ theorem SameShapes.wffs : ∀ (fs fs' : List Field), SameShape.SameShapes fs fs'
     simp only [SameShape.SameShapes] at hh
     obtain ⟨f', r', rfl, h1, h2⟩ := hh
     simp only [WFF.WFFs] at hw ⊢
-    exact ⟨⟨SameShape.wff f f' h1 hw.1.1, h1.nonEmpty hw.1.2⟩, SameShapes.wffs fs r' h2 hw.2⟩
+    exact ⟨SameShape.wff f f' h1 hw.1, SameShapes.wffs fs r' h2 hw.2⟩
 end
 
 /-! `subset` preserves the shape -/
